@@ -260,6 +260,7 @@ pub fn check_program(ctx: &mut Ctx, tree: &Program, r: &Rendered) {
         return;
     }
     // diagnostics come sorted by line; candidates are in source order = line order
+    let ast_stmts = crate::conv::statements_preorder(&prog);
     for (ex, d) in exp.iter().zip(diags.iter()) {
         let st = &r.stmts[ex.stmt_index];
         let value_text = match &ex.value {
@@ -285,7 +286,36 @@ pub fn check_program(ctx: &mut Ctx, tree: &Program, r: &Rendered) {
             }
             ctx.count("diagnostic_lines_checked");
         } else {
-            ctx.count("multi_line_statement_line_not_checked");
+            // A statement stretched over several lines (a multi-line string or comment inside it): "the correct
+            // line" is read as the line the syntax tree itself gives the value expression (assignments) or the
+            // array (pushes) - whose ranges C12 checks against the source. See DESIGN.md, C18.
+            use rrss::frontend::ast::{PoeticAssignment, PoeticNumberAssignmentRHS, Statement};
+            use rrss::frontend::source_range::Line;
+            let want = match ast_stmts.get(ex.stmt_index) {
+                Some(Statement::Assignment(a)) => Some(a.value.line()),
+                Some(Statement::PoeticAssignment(PoeticAssignment::Number(a))) => match &a.rhs {
+                    PoeticNumberAssignmentRHS::Expression(e) => Some(e.line()),
+                    _ => None,
+                },
+                Some(Statement::ArrayPush(a)) => Some(a.array.line()),
+                _ => None,
+            };
+            let want = match want {
+                Some(w) if w >= st.line && w <= st.end_line => w,
+                _ => {
+                    ctx.count("multi_line_statement_not_located");
+                    continue;
+                }
+            };
+            if d.line != want {
+                ctx.violation(
+                    "diagnostic_on_wrong_line:multi_line_statement",
+                    &format!("statement on lines {}-{} (value/array starts on line {}) reported on line {}: {}", st.line, st.end_line, want, d.line, d.issue),
+                    case(),
+                );
+                return;
+            }
+            ctx.count("multi_line_statement_lines_checked");
         }
         ctx.max("max_depth_of_reported_statement", st.depth as u64);
         if let Err((sig, detail)) = check_suggestion(ctx, ex, d, src) {
@@ -328,7 +358,7 @@ fn assignment_stmt(rng: &mut Rng, g: &mut Vec<Name>) -> Stmt {
         4 => bin(BinOp::Divide, num(*rng.pick(&[1.0, 0.0])), num(0.0)),
         5 => bin(BinOp::Divide, Expr::Un(UnOp::Minus, Box::new(num(1.0))), num(0.0)),
         6 => strlit(*rng.pick(&["hello", "Hello, World!", "", " padded ", "it's (fine)", "é 日本", "say 1", "1"])),
-        7 => strlit("two\nlines"),
+        7 => strlit(*rng.pick(&["two\nlines", "hello\n", "\n", "\nhello", "a\n\nb", "three\nshort\nlines", " \n "])),
         8 | 9 => {
             let d = rng.range(1, 4);
             const_expr(rng, d, 2)
@@ -447,6 +477,17 @@ pub fn run(ctx: &mut Ctx) {
             }
         }
         check_program(ctx, &tree, &r);
+    });
+    // the same programs with comments that contain line breaks between any two tokens
+    let n = ctx.size(10_000, 300_000);
+    ctx.cases("multi_line_statements", n, |ctx, rng, _| {
+        let tree = program(rng);
+        let mut sp = Spelling::mild(rng);
+        sp.multiline_comments = true;
+        sp.comments = true;
+        if let Ok(r) = render(&tree, &sp, rng) {
+            check_program(ctx, &tree, &r);
+        }
     });
     // arbitrary syntax-directed programs: exactness of WHICH statements are reported
     let n = ctx.size(10_000, 300_000);
